@@ -7,6 +7,8 @@
 #include "rt_common.h"
 #include <unistd.h>
 #include <sys/wait.h>
+#include <signal.h>
+#include <sys/mman.h>
 
 const char *harness_name = "h_iso" ;
 
@@ -27,6 +29,7 @@ typedef struct
 } Script ;
 
 static Script scripts [128] ; static int nscripts ;
+static uint64_t *iso_outcome ;	/* shared with the per-case child: hash of what the case observed */
 
 typedef struct { Script *s ; MemDev dev ; SNDFILE *sf ; int step, slot ; char path [300] ; uint64_t tr [NSTEPS + 1] ; } Handle ;
 
@@ -132,11 +135,28 @@ static void build_scripts (void)
 		{	Script *s = &scripts [nscripts] ; memset (s, 0, sizeof (*s)) ;
 			s->f = f ; s->ch = ch ; s->kind = kind ; s->B = fmt_block (f, ch, fmt_default_rate (f)) ;
 			if (kind == 1)
-			{	SF_INFO info ; SNDFILE *sf ; int B = s->B > 1 && s->B < 1200 ? s->B : 16 ; long N = 3 * B + 20 ;
-				md_reset (&d) ; rt_info (&info, f, ch, fmt_default_rate (f)) ; sf = md_open (&d, SFM_WRITE, &info) ;
-				if (! sf) continue ;
-				vl_write (sf, T_SHORT, 1, sdata, N) ; INLIB (sf_close (sf)) ;
-				s->seed_len = d.len ; s->seed = malloc (d.len + 1) ; memcpy (s->seed, d.data, d.len) ;
+			{	/* The file a read script reads is written in a child process: this process must not have used the library for
+				** anything before the solo references are taken (a fork of a process that has already written, say, a W64/IMA
+				** header is not a fresh process, and state kept from that would be in the reference too). */
+				int fds [2] ; pid_t pid ; int status ; sf_count_t len = 0 ;
+				if (pipe (fds) != 0) continue ;
+				if ((pid = fork ()) == 0)
+				{	SF_INFO info ; SNDFILE *sf ; int B = s->B > 1 && s->B < 1200 ? s->B : 16 ; long N = 3 * B + 20 ; sf_count_t done = 0 ;
+					close (fds [0]) ;
+					md_reset (&d) ; rt_info (&info, f, ch, fmt_default_rate (f)) ; sf = md_open (&d, SFM_WRITE, &info) ;
+					if (sf) { vl_write (sf, T_SHORT, 1, sdata, N) ; INLIB (sf_close (sf)) ; len = d.len ; }
+					if (write (fds [1], &len, sizeof (len)) != (ssize_t) sizeof (len)) _exit (2) ;
+					while (done < len) { ssize_t w = write (fds [1], d.data + done, len - done) ; if (w <= 0) _exit (2) ; done += w ; }
+					_exit (0) ;
+					}
+				close (fds [1]) ;
+				if (pid > 0 && read (fds [0], &len, sizeof (len)) == (ssize_t) sizeof (len) && len > 0)
+				{	sf_count_t got = 0 ; s->seed = malloc (len + 1) ;
+					while (got < len) { ssize_t r = read (fds [0], s->seed + got, len - got) ; if (r <= 0) break ; got += r ; }
+					s->seed_len = got == len ? len : 0 ;
+					}
+				close (fds [0]) ; if (pid > 0) waitpid (pid, &status, 0) ;
+				if (s->seed_len <= 0) continue ;
 				}
 			nscripts ++ ;
 			}
@@ -179,7 +199,7 @@ static void run_schedule (Script **ss, int n, const int *order, int total)
 		md_free (&h [i].dev) ;
 		}
 	vl_count_extra (0, 1) ;
-	(void) oh ;
+	if (iso_outcome) *iso_outcome = vl_hash_u64 (oh, *iso_outcome) ;
 }
 
 /* enumerate all schedules of n scripts (NSTEPS each) with at most `bound` preemptions */
@@ -198,42 +218,53 @@ static long enum_schedules (Script **ss, int n, int bound, int *order, int depth
 	return cnt ;
 }
 
+/* Every case runs in a fork of this process, which itself never uses the library for anything but the format catalogue:
+** what a case observes then depends on that case alone (its own earlier handles included), so a violation can be replayed
+** from its spec, and state left behind by one case cannot make another one fail. Counters and violation records live in
+** shared memory / an append-mode file and work from the child. */
+typedef struct { int kind, a, b, c, bound ; } IsoCase ;
+static void iso_case_body (const IsoCase *k) ;
+
+static void iso_case (const IsoCase *k)
+{	pid_t pid ; int status = 0 ;
+	if (! iso_outcome) iso_outcome = mmap (NULL, 4096, PROT_READ | PROT_WRITE, MAP_SHARED | MAP_ANONYMOUS, -1, 0) ;
+	*iso_outcome = VL_H0 ;
+	fflush (NULL) ;
+	pid = fork () ;
+	if (pid == 0) { iso_case_body (k) ; fflush (NULL) ; _exit (0) ; }
+	if (pid < 0) { iso_case_body (k) ; return ; }
+	waitpid (pid, &status, 0) ;
+	if (WIFSIGNALED (status)) { signal (WTERMSIG (status), SIG_DFL) ; raise (WTERMSIG (status)) ; _exit (99) ; }	/* let the supervisor attribute the crash to this case */
+	if (WIFEXITED (status) && WEXITSTATUS (status) != 0) _exit (WEXITSTATUS (status)) ;
+}
+
 void harness_run (void)
 {	fmt_build () ; init_data () ; build_scripts () ;
 	/* solo references (fresh child each) and independence of earlier use */
 	for (int i = 0 ; i < nscripts ; i++) solo_in_child (&scripts [i]) ;
 	for (int i = 0 ; i < nscripts ; i++)
 		if (vl_case ("C19 earlier-use script=%s", sname (&scripts [i])))
-		{	uint64_t tr [NSTEPS + 1] ; Script *s = &scripts [i] ;
-			/* 20 unrelated open/close cycles first */
-			for (int k = 0 ; k < 20 ; k++) { uint64_t junk [NSTEPS + 1] ; run_solo (&scripts [(i + 1 + k * 7) % nscripts], junk) ; }
-			run_solo (s, tr) ;
-			if (! s->solo_ok) vl_violation (rt_sig ("%s|solo-child-failed", rt_fam (s->f)), "the solo run in a fresh process did not complete") ;
-			else
-				for (int k = 0 ; k <= NSTEPS ; k++)
-					if (tr [k] != s->solo [k]) { vl_violation (rt_sig ("%s|depends-on-earlier-use", rt_fam (s->f)), "%s: %s differs between a fresh process and a process that used the library before", sname (s), k == NSTEPS ? "final file" : rt_sig ("step %d", k)) ; break ; }
+		{	IsoCase k = { 0, i, 0, 0, 0 } ; iso_case (&k) ;
 			vl_root_count ("earlier-use") ; vl_count_states (1) ;
-			vl_end (1, tr [NSTEPS]) ;
+			vl_end (1, *iso_outcome) ;
 			}
 	/* pairs (with repetition: the same script twice is the sharpest driver for hidden static state) */
 	for (int a = 0 ; a < nscripts ; a++)
 		for (int b = a ; b < nscripts ; b++)
 		{	int bound = vl_opts.thorough ? 3 : 2 ;
 			if (vl_case ("C19 pair a=%s b=%s preemptions<=%d", sname (&scripts [a]), sname (&scripts [b]), bound))
-			{	Script *ss [2] = { &scripts [a], &scripts [b] } ; int order [4 * NSTEPS], steps [4] = { 0, 0, 0, 0 } ; long n ;
-				n = enum_schedules (ss, 2, bound, order, 0, -1, steps, 0) ;
-				vl_root_count ("pairs") ; vl_count_states (n) ;
-				vl_end (1, n) ;
+			{	IsoCase k = { 1, a, b, 0, bound } ; iso_case (&k) ;
+				vl_root_count ("pairs") ;
+				vl_end (1, *iso_outcome) ;
 				}
 			}
 	/* triples: a rotating selection */
 	for (int t = 0 ; t < (vl_opts.thorough ? 400 : 80) ; t++)
 	{	int a = (t * 7) % nscripts, b = (t * 13 + 5) % nscripts, c = (t * 29 + 11) % nscripts ;
 		if (vl_case ("C19 triple a=%s b=%s c=%s preemptions<=2", sname (&scripts [a]), sname (&scripts [b]), sname (&scripts [c])))
-		{	Script *ss [3] = { &scripts [a], &scripts [b], &scripts [c] } ; int order [4 * NSTEPS], steps [4] = { 0, 0, 0, 0 } ; long n ;
-			n = enum_schedules (ss, 3, 2, order, 0, -1, steps, 0) ;
-			vl_root_count ("triples") ; vl_count_states (n) ;
-			vl_end (1, n) ;
+		{	IsoCase k = { 2, a, b, c, 2 } ; iso_case (&k) ;
+			vl_root_count ("triples") ;
+			vl_end (1, *iso_outcome) ;
 			}
 		}
 	/* thorough: all merges of two scripts for the same-codec pairs */
@@ -241,9 +272,30 @@ void harness_run (void)
 		for (int a = 0 ; a < nscripts ; a++)
 			for (int b = a ; b < nscripts && b <= a + 1 ; b++)
 				if (vl_case ("C19 allmerges a=%s b=%s", sname (&scripts [a]), sname (&scripts [b])))
-				{	Script *ss [2] = { &scripts [a], &scripts [b] } ; int order [4 * NSTEPS], steps [4] = { 0, 0, 0, 0 } ; long n ;
-					n = enum_schedules (ss, 2, 2 * NSTEPS, order, 0, -1, steps, 0) ;
-					vl_root_count ("allmerges") ; vl_count_states (n) ;
-					vl_end (1, n) ;
+				{	IsoCase k = { 1, a, b, 0, 2 * NSTEPS } ; iso_case (&k) ;
+					vl_root_count ("allmerges") ;
+					vl_end (1, *iso_outcome) ;
 					}
+}
+
+static void iso_case_body (const IsoCase *k)
+{	int order [4 * NSTEPS], steps [4] = { 0, 0, 0, 0 } ; long n ;
+	if (k->kind == 0)
+	{	uint64_t tr [NSTEPS + 1] ; Script *s = &scripts [k->a] ;
+		/* 20 unrelated open/close cycles first */
+		for (int j = 0 ; j < 20 ; j++) { uint64_t junk [NSTEPS + 1] ; run_solo (&scripts [(k->a + 1 + j * 7) % nscripts], junk) ; }
+		run_solo (s, tr) ; if (iso_outcome) *iso_outcome = vl_hash (tr, sizeof (tr), *iso_outcome) ;
+		if (! s->solo_ok) vl_violation (rt_sig ("%s|solo-child-failed", rt_fam (s->f)), "the solo run in a fresh process did not complete") ;
+		else
+			for (int j = 0 ; j <= NSTEPS ; j++)
+				if (tr [j] != s->solo [j]) { vl_violation (rt_sig ("%s|depends-on-earlier-use", rt_fam (s->f)), "%s: %s differs between a fresh process and a process that used the library before", sname (s), j == NSTEPS ? "final file" : rt_sig ("step %d", j)) ; break ; }
+		}
+	else if (k->kind == 1)
+	{	Script *ss [2] = { &scripts [k->a], &scripts [k->b] } ;
+		n = enum_schedules (ss, 2, k->bound, order, 0, -1, steps, 0) ; vl_count_states (n) ;
+		}
+	else
+	{	Script *ss [3] = { &scripts [k->a], &scripts [k->b], &scripts [k->c] } ;
+		n = enum_schedules (ss, 3, k->bound, order, 0, -1, steps, 0) ; vl_count_states (n) ;
+		}
 }
